@@ -2,6 +2,7 @@ mod canonv;
 mod gen;
 mod hooks;
 mod kindv;
+mod macrov;
 mod navv;
 mod numgen;
 mod nestv;
@@ -34,12 +35,14 @@ fn main() {
 		"replay" => {
 			let mut rep = Report::new();
 			let mut ost = objv::ObjState::new();
+			let mut macros: Vec<serde_json::Value> = vec![];
 			for path in &args.pos {
 				for_each_record(path, |rec| match rec["k"].as_str() {
 					Some("parse_bytes") => parsev::replay_bytes(&mut rep, &rec),
 					Some("parse") => parsev::replay_parse(&mut rep, &rec),
 					Some("obj") => objv::replay_obj(&mut rep, &mut ost, &rec),
 					Some("nest") => nestv::replay_nest(&mut rep, &rec),
+					Some("macro") => macros.push(rec.clone()),
 					Some("sj") => serdev::replay_sj(&mut rep, &rec),
 					Some("ser") => serdev::replay_ser(&mut rep, &rec),
 					Some("canon") => canonv::replay_canon(&mut rep, &rec),
@@ -53,6 +56,7 @@ fn main() {
 					None => (),
 				});
 			}
+			macrov::run_batch(&mut rep, &macros);
 			if args.get("value-kinds").is_some() {
 				kindv::check_value_kinds(&mut rep);
 			}
